@@ -28,7 +28,7 @@ for b in binders:
     if b[0] == "(":
         names += b[1:b.index(":")].split()
 pre = []
-for b in re.findall(r"\(([^()]*)\)", extra):
+for b in re.findall(r"\(([^():]*:[^()]*)\)", extra):
     pre += b[:b.index(":")].split()
 names = pre + names
 doc = open(docf).read().strip()
